@@ -537,6 +537,11 @@ func (i *importer) importMessage(dbcMsg *dbc.Message) error {
 
 	if muxSigCount == 0 {
 		for _, dbcSig := range dbcMsg.Signals {
+			// a multiplexed signal needs a multiplexor switch in its message
+			if dbcSig.IsMultiplexed {
+				return i.errorf(dbcSig, &ErrIsRequired{Item: "multiplexor switch"})
+			}
+
 			tmpSig, err := i.importSignal(dbcSig, dbcMsg.ID)
 			if err != nil {
 				return err
